@@ -38,10 +38,10 @@ type Result struct {
 	NShards    int                 `json:"nshards"`
 	Config     map[string]string   `json:"config"`
 	Evals      int64               `json:"evals"`
-	Classes    map[string]int64    `json:"classes"`  // non-trivial class signature -> hits
-	Trivial    int64               `json:"trivial"`  // evaluations counted as trivial
-	Counters   map[string]int64    `json:"counters"` // named observation counters
-	Orders     map[string][]string `json:"orders"`   // hook site -> distinct arrival orders seen (capped)
+	Classes    map[string]int64    `json:"classes"`           // non-trivial class signature -> hits
+	Trivial    int64               `json:"trivial"`           // evaluations counted as trivial
+	Counters   map[string]int64    `json:"counters"`          // named observation counters
+	Orders     map[string][]string `json:"orders"`            // hook site -> distinct arrival orders seen (capped)
 	Digests    map[string]string   `json:"digests,omitempty"` // case id -> output digest, compared across configurations by the driver
 	Samples    []interface{}       `json:"samples"`
 	Violations []Violation         `json:"violations"`
@@ -248,7 +248,9 @@ func (c *Ctx) FailCase(id, sig, msg string, detail interface{}) {
 }
 
 // Failf is Fail with formatting and no detail.
-func (c *Ctx) Failf(sig, format string, a ...interface{}) { c.Fail(sig, fmt.Sprintf(format, a...), nil) }
+func (c *Ctx) Failf(sig, format string, a ...interface{}) {
+	c.Fail(sig, fmt.Sprintf(format, a...), nil)
+}
 
 // Finish writes the result file.
 func (c *Ctx) Finish() error {
